@@ -570,7 +570,7 @@ def run(tier, seed):
 
     out = []
     fl, classes = _collect(fails["sig"])
-    r = result(CHECK_ONCE, ["C09", "C06"], "utils/sigchld.py::SigchldHelper.{track,wait,_handler}",
+    r = result(CHECK_ONCE, ["C09", "C06", "C01", "C03"], "utils/sigchld.py::SigchldHelper.{track,wait,_handler}",
                "n in 1..6 real children (fork/_exit and /bin/sh; exit codes {} and signals {}) x timing {} x "
                "{} code/order variants per cell".format(EXIT_CODES, SIGNALS, TIMINGS,
                                                         2 if tier == "quick" else 8),
